@@ -124,19 +124,25 @@ def check_timeslice(rng, failures, n):
     lines = []
     want = []
     for i in range(n):
-        secs = rng.randint(-2 * 10**9, 4 * 10**9)
+        secs = rng.randint(-2 * 10**9, 4 * 10**9) if rng.random() < 0.7 else rng.randint(-30610224000, 253402300799)     # years 1000 .. 9999 too
         frac = rng.choice([0, 0, 123000000, 999999999, 1])
         dt = datetime.datetime(1970, 1, 1) + datetime.timedelta(seconds=secs)
         ts = dt.strftime('%Y-%m-%dT%H:%M:%S') + ('.%09d' % frac if frac else '') + 'Z'
         lines.append(json.dumps({'i': i, 'ts': ts}) + '\n')
         want.append(secs * 10**9 + frac)
     checked = 0
-    for span_txt, span in (('5m', 300 * 10**9), ('1h', 3600 * 10**9), ('1d', 86400 * 10**9), ('7s', 7 * 10**9), ('1w', 7 * 86400 * 10**9), ('250ms', 250 * 10**6)):
+    for span_txt, span in (('5m', 300 * 10**9), ('1h', 3600 * 10**9), ('1d', 86400 * 10**9), ('7s', 7 * 10**9), ('1w', 7 * 86400 * 10**9), ('250ms', 250 * 10**6),
+                           ('36h', 36 * 3600 * 10**9), ('20000w', 20000 * 7 * 86400 * 10**9)):
         q = '* | json | parseDate(ts) as d | timeslice(d) %s as t | fields i, t' % span_txt
         ok, rows, o = run_raw(q, lines)
         if not ok:
             failures.append({'kind': 'spec', 'what': 'timeslice run failed', 'payload': {'query': q, 'stderr': o['err'].decode('utf8', 'replace')[-300:]}})
             continue
+        if len(rows) != len(lines):
+            missing = sorted(set(range(len(lines))) - {r['i'] for r in rows})
+            failures.append({'kind': 'spec', 'what': 'timeslice %s refused %d of %d dates, e.g. %s' % (span_txt, len(missing), len(lines), lines[missing[0]].strip() if missing else '?'),
+                             'payload': {'query': q, 'input_lines': [lines[missing[0]]] if missing else lines[:3], 'stderr': o['err'].decode('utf8', 'replace')[-200:]}})
+            return checked
         for r in rows:
             ns = want[r['i']]
             t = r['t']
